@@ -310,20 +310,19 @@ class HttpParser:
             )
 
     def _parse_headers(self, data):
-        if data == b'\r\n':
-            self.__on_headers_complete = True
-            self._buf = []
-            return 0
-        idx = data.find(b'\r\n\r\n')
-        if idx < 0:  # we don't have all headers
-            if self._status_code == 204 and data == b'\r\n':
-                self._buf = []
-                self.__on_headers_complete = True
-                return 0
-            return False
+        if data[:2] == b'\r\n':
+            # empty header block: the blank line follows the first line at
+            # once; whatever comes after it belongs to the body
+            lines = []
+            rest = data[2:]
+        else:
+            idx = data.find(b'\r\n\r\n')
+            if idx < 0:  # we don't have all headers
+                return False
 
-        # Split lines on \r\n keeping the \r\n on each line
-        lines = [str(line, 'unicode_escape') + '\r\n' for line in data[:idx].split(b'\r\n')]
+            # Split lines on \r\n keeping the \r\n on each line
+            lines = [str(line, 'unicode_escape') + '\r\n' for line in data[:idx].split(b'\r\n')]
+            rest = data[idx + 4 :]
 
         # Parse headers into key/value pairs paying attention
         # to continuation lines.
@@ -378,8 +377,7 @@ class HttpParser:
             elif encoding == 'deflate':
                 self.__decompress_obj = zlib.decompressobj()
 
-        rest = data[idx + 4 :]
-        self._buf = [rest]
+        self._buf = [rest] if rest else []
         self.__on_headers_complete = True
         return len(rest)
 
